@@ -59,12 +59,14 @@ def ref_tables(g, lr):
     o.append('static const uint16_t RARG[%d][%d] = {%s};' % (ns, tc, ','.join('{%s}' % ','.join(map(str, r)) for r in arg)))
     return '\n'.join(o) + '\n', nw, ns
 
+SRR = lr1.Grammar('srr', ['S', 'C', 'A', 'B'], ['x', 't'], 'S', [('S', ['C']), ('S', ['A', 't']), ('S', ['B', 't']), ('C', ['x', 't']), ('A', ['x']), ('B', ['x'])],
+                  note='a shift and two reductions compete for the same cell: the R/R conflict must still be reported')
 RR = lr1.Grammar('rr1', ['op', 'sop'], ['!', '*', '+'], 'op', [('sop', ['!']), ('op', ['!']), ('op', ['*']), ('op', ['+']), ('op', ['sop'])], note='README reduce/reduce example')
 
 def kernels(wd, tier='quick'):
     P = {g.name: g for g in families.g_prec() + families.g_dir()}
-    names = ['p_ll', 'p_rr', 'lalr', 'p_else'] if tier == 'quick' else ['p_ll', 'p_rr', 'p_lr', 'p_eq', 'p_eqr', 'p_none', 'p_def', 'p_neg', 'p_expl', 'p_else', 'lalr', 'etf', 'd2', 'nullrun']
-    gs = [P[n] for n in names] + [RR]
+    names = ['p_ll', 'p_rr', 'lalr', 'p_else', 'p_perm'] if tier == 'quick' else ['p_ll', 'p_rr', 'p_lr', 'p_eq', 'p_eqr', 'p_none', 'p_def', 'p_neg', 'p_expl', 'p_else', 'p_perm', 'interl', 'lalr', 'etf', 'd2', 'nullrun']
+    gs = [P[n] for n in names] + [RR, SRR]
     ks = []
     for g in gs:
         lr = lr1.LR1(g)
